@@ -291,9 +291,9 @@ fn self_diff_cases(ctx: &mut Ctx, k: u32, l: usize) {
                         (r.is_ok(), h.trace)
                     });
                     let out = match r {
-                        Ok((true, trace)) => Outcome { status: Status::Ok, trace, cmps: 0, same_cmps: 0, probes: 0, at_expiry: None },
-                        Ok((false, trace)) => Outcome { status: Status::HookErr, trace, cmps: 0, same_cmps: 0, probes: 0, at_expiry: None },
-                        Err(_) => Outcome { status: Status::Panic, trace: vec![], cmps: 0, same_cmps: 0, probes: 0, at_expiry: None },
+                        Ok((true, trace)) => Outcome { status: Status::Ok, trace, cmps: 0, same_cmps: 0, probes: 0, at_expiry: None, max_probe_gap: 0 },
+                        Ok((false, trace)) => Outcome { status: Status::HookErr, trace, cmps: 0, same_cmps: 0, probes: 0, at_expiry: None, max_probe_gap: 0 },
+                        Err(_) => Outcome { status: Status::Panic, trace: vec![], cmps: 0, same_cmps: 0, probes: 0, at_expiry: None, max_probe_gap: 0 },
                     };
                     let shown = match out.status {
                         Status::Ok => format!("ok T={} c=- p=-", proto::show_calls(&out.trace)),
@@ -303,6 +303,67 @@ fn self_diff_cases(ctx: &mut Ctx, k: u32, l: usize) {
                     ctx.count("raw.self_diff_cases");
                     check_raw(ctx, &c, &out, &req);
                 }
+            }
+        }
+    }
+}
+
+/// item with a NON-REFLEXIVE equality (like `f64::NAN`): labels >= NAN_FROM are equal to nothing, not even themselves
+#[derive(Clone, Copy, Debug, PartialOrd, Ord, Hash)]
+struct Nr(u32);
+const NAN_FROM: u32 = 100;
+impl PartialEq for Nr {
+    fn eq(&self, o: &Nr) -> bool {
+        self.0 == o.0 && self.0 < NAN_FROM
+    }
+}
+impl Eq for Nr {}
+
+/// The SAME object on both sides, items whose equality is not reflexive: "the two sides are the same slice" says
+/// nothing about element-wise equality, every segment reported equal must still consist of items that compare equal.
+/// The model sees the same equality pattern through two label sequences in which every NaN item has its own label.
+fn self_diff_nonreflexive_cases(ctx: &mut Ctx, l: usize) {
+    for shape in gen::all_seqs(3, l) {
+        if !shape.contains(&2) {
+            continue;
+        }
+        for alg in ALGS {
+            if !ctx.take() {
+                continue;
+            }
+            let buf: Vec<Nr> = shape.iter().map(|&x| if x == 2 { Nr(NAN_FROM) } else { Nr(x) }).collect();
+            let old_l: Vec<u32> = shape.iter().enumerate().map(|(i, &x)| if x == 2 { 1000 + i as u32 } else { x }).collect();
+            let new_l: Vec<u32> = shape.iter().enumerate().map(|(i, &x)| if x == 2 { 2000 + i as u32 } else { x }).collect();
+            let c = Case::full(alg, &old_l, &new_l);
+            let req = c.request();
+            let n = buf.len();
+            let run = |which: u8| -> Outcome {
+                let b = buf.clone();
+                let r = std::panic::catch_unwind(move || {
+                    let mut h = obs::RecHook::new(None);
+                    let r = match (which, alg) {
+                        (0, _) => similar::algorithms::diff(alg, &mut h, &b[..], 0..n, &b[..], 0..n),
+                        (_, Algorithm::Myers) => similar::algorithms::myers::diff(&mut h, &b[..], 0..n, &b[..], 0..n),
+                        (_, Algorithm::Lcs) => similar::algorithms::lcs::diff(&mut h, &b[..], 0..n, &b[..], 0..n),
+                        (_, Algorithm::Patience) => similar::algorithms::patience::diff(&mut h, &b[..], 0..n, &b[..], 0..n),
+                    };
+                    (r.is_ok(), h.trace)
+                });
+                match r {
+                    Ok((true, trace)) => Outcome { status: Status::Ok, trace, cmps: 0, same_cmps: 0, probes: 0, at_expiry: None, max_probe_gap: 0 },
+                    Ok((false, trace)) => Outcome { status: Status::HookErr, trace, cmps: 0, same_cmps: 0, probes: 0, at_expiry: None, max_probe_gap: 0 },
+                    Err(_) => Outcome { status: Status::Panic, trace: vec![], cmps: 0, same_cmps: 0, probes: 0, at_expiry: None, max_probe_gap: 0 },
+                }
+            };
+            for which in [0u8, 1] {
+                let out = run(which);
+                let shown = match out.status {
+                    Status::Ok => format!("ok T={} c=- p=-", proto::show_calls(&out.trace)),
+                    _ => out.show(),
+                };
+                ctx.emit(&req, &shown);
+                ctx.count("raw.self_diff_nonreflexive_cases");
+                check_raw(ctx, &c, &out, &req);
             }
         }
     }
@@ -353,6 +414,7 @@ pub fn suite_raw(ctx: &mut Ctx) {
         }
     });
     self_diff_cases(ctx, 2, if ctx.tier == Tier::Quick { 4 } else { 5 });
+    self_diff_nonreflexive_cases(ctx, if ctx.tier == Tier::Quick { 5 } else { 7 });
     for c in big_cases(ctx.seed) {
         if !ctx.take() {
             continue;
@@ -726,14 +788,24 @@ pub fn suite_stacks(ctx: &mut Ctx) {
 
 /* ------------------------------------------------------------------------------------------ */
 
-/// bound on cross comparisons after expiry accepted by the oracle: twice the theorem's bound
+/// bound on cross comparisons after the first probe that answered "exceeded": exactly the proved bounds
+/// (C07: `lcs_no_work_after_expiry`, `myers_post_expiry_bound`, `patience_post_expiry_bound`)
 pub fn post_expiry_bound(alg: Algorithm, n: usize, m: usize) -> u64 {
-    let s = (n + m) as u64;
-    // proved: LCS 0, Myers <= 3*min(N,M) <= 1.5*(N+M); Patience: hand-derived 4*(N+M) (measured <= 1.0*(N+M))
+    let mn = n.min(m) as u64;
     match alg {
-        Algorithm::Myers => 2 * s + 4,
-        Algorithm::Patience => 4 * s + 8,
+        Algorithm::Myers => 3 * mn,
+        Algorithm::Patience => 7 * mn,
         Algorithm::Lcs => 0,
+    }
+}
+
+/// bound on cross comparisons of a run ENTERED on an expired deadline (`myers_expired_at_start`,
+/// `patience_expired_at_start`; LCS: its two scans)
+pub fn expired_entry_bound(alg: Algorithm, n: usize, m: usize) -> u64 {
+    let mn = n.min(m) as u64;
+    match alg {
+        Algorithm::Myers | Algorithm::Lcs => mn + 2,
+        Algorithm::Patience => 5 * mn + 4,
     }
 }
 
@@ -780,6 +852,14 @@ pub fn suite_deadline(ctx: &mut Ctx) {
             }
             let total = nout.probes;
             ctx.max("deadline.max_probes", total);
+            // promptness in REAL time: the deadline can pass at any moment, and it is noticed at the next probe -- so the
+            // work between two consecutive probes must stay linear: Myers one d-iteration (two passes), LCS one table row,
+            // Patience in addition its scans
+            let nm = ((base.oe - base.os) + (base.ne - base.ns)) as u64;
+            ctx.max(&format!("deadline.max_probe_gap_x1000_per_item.{}", alg_name(alg)), nout.max_probe_gap * 1000 / nm.max(1));
+            if total > 0 && nout.max_probe_gap > 4 * nm + 8 {
+                ctx.violation("C07", &nreq, format!("{} comparisons between two consecutive deadline checks for N+M = {}: an expiry in between is noticed too late", nout.max_probe_gap, nm));
+            }
             // every expiry point (sampled beyond 40 for long runs)
             let ks: Vec<u64> = if total <= 40 { (0..=total + 1).collect() } else {
                 let mut v: Vec<u64> = (0..=12).collect();
@@ -803,11 +883,12 @@ pub fn suite_deadline(ctx: &mut Ctx) {
                     if let Some(at) = at_expiry {
                         let after = out.cmps - at;
                         ctx.max(&format!("deadline.max_cmps_after_expiry_x1000_per_item.{}", alg_name(alg)), after * 1000 / ((old.len() + new.len()) as u64).max(1));
-                        // expired at entry: the prefix/suffix scans (at most N+M+2 comparisons) still run
-                        let mut bound = post_expiry_bound(alg, base.oe - base.os, base.ne - base.ns);
-                        if kx == 0 {
-                            bound = bound.max(((base.oe - base.os) + (base.ne - base.ns) + 2) as u64);
-                        }
+                        // expired at entry: the prefix/suffix scans still run
+                        let bound = if kx == 0 {
+                            expired_entry_bound(alg, base.oe - base.os, base.ne - base.ns)
+                        } else {
+                            post_expiry_bound(alg, base.oe - base.os, base.ne - base.ns)
+                        };
                         if after > bound {
                             ctx.violation("C07", &req, format!("{} comparisons after expiry for N+M = {}", after, old.len() + new.len()));
                         }
@@ -925,9 +1006,9 @@ pub fn run_script(stack: Stack, old: &[u32], new: &[u32], calls: &[Call], repair
         }
     });
     match r {
-        None => Outcome { status: Status::Panic, trace: vec![], cmps, same_cmps: same, probes, at_expiry: None },
-        Some((Ok(()), trace)) => Outcome { status: Status::Ok, trace, cmps, same_cmps: same, probes, at_expiry: None },
-        Some((Err(_), trace)) => Outcome { status: Status::HookErr, trace, cmps, same_cmps: same, probes, at_expiry: None },
+        None => Outcome { status: Status::Panic, trace: vec![], cmps, same_cmps: same, probes, at_expiry: None, max_probe_gap: 0 },
+        Some((Ok(()), trace)) => Outcome { status: Status::Ok, trace, cmps, same_cmps: same, probes, at_expiry: None, max_probe_gap: 0 },
+        Some((Err(_), trace)) => Outcome { status: Status::HookErr, trace, cmps, same_cmps: same, probes, at_expiry: None, max_probe_gap: 0 },
     }
 }
 
